@@ -2,7 +2,7 @@ SPECIFICATION Spec
 CONSTANTS
   Stacks <- StacksByTest
   Outcomes <- Out1
-  TagOps <- TagOps3
+  TagOps <- TagOps2
   Times = {"1", "2"}
   MaxCalls = 10
   MaxTests = 2
